@@ -197,16 +197,21 @@ C06_waitPoint(t) == Started(t) => t.ev \in WaitPoints
 C06_singleThing(t) == (Started(t) /\ t.ev \in (WaitPoints \ {"RoundStarted"})) => \A i \in Seats(t) : t.P[i].allowed = <<>>
 StartAllowed(g) == g.n >= 2 /\ Dealers(g) # {} /\ (\A i \in Seats(g) : g.P[i].bankroll > 0) /\ Len(g.meta.deck) > 0
 C06_start(g, t, o) == (o.op = "Start" /\ ~Started(g)) => (o.ok <=> StartAllowed(g)) /\ (o.ok => Started(t)) /\ (~o.ok => t = g)
-\* the single thing the hand is waiting for, performed: it succeeds and moves the hand on
-Expected(g, o) ==
+\* the single thing the hand is waiting for, performed: it succeeds and moves the hand on.  For bet and raise "that
+\* step" is an offered action of a LEGAL size (C11: "every offered action and every legal size"): a bet of a positive
+\* amount below the stack; in no-limit a raise to a level below the stack that lifts the wager to match by at least the
+\* minimum raise.  What happens to other sizes is C12's matter (all-in or refused), not a step the hand is waiting for.
+LegalSize(g, o, h) ==
+  /\ o.op = "Bet" => (o.x > 0 /\ o.x < g.P[g.cur].stack)
+  /\ o.op = "Raise" => (g.meta.limit = "no" /\ o.x < g.P[g.cur].init /\ o.x > ToMatch(g) /\ o.x - ToMatch(g) >= MinRaise(g, h))
+Expected(g, o, h) ==
   \/ o.op = "ReadyForAll" /\ g.ev = "ReadyRequested"
   \/ o.op = "PayAnte" /\ g.ev = "AnteRequested"
   \/ o.op = "PayBlinds" /\ g.ev = "BlindsRequested"
   \/ o.op = "Next" /\ g.ev = "RoundClosed"
   \/ /\ Betting(g) /\ IsAction(o.op) /\ CurOK(g) /\ o.seat = g.cur /\ Offered(g, ActName(o.op))
-     /\ o.op = "Bet" => o.x > 0
-     /\ o.op = "Raise" => (o.x > 0 /\ o.x > ToMatch(g))
-C06_succeeds(g, t, o) == Expected(g, o) => (o.ok /\ t # g)
+     /\ LegalSize(g, o, h)
+C06_succeeds(g, t, o, h) == Expected(g, o, h) => (o.ok /\ t # g)
 RoundIdx(r) == CASE r = "" -> 0 [] r = "preflop" -> 1 [] r = "flop" -> 2 [] r = "turn" -> 3 [] r = "river" -> 4 [] OTHER -> 99
 C06_streets(g, t, o) == RoundIdx(t.round) \in {RoundIdx(g.round), RoundIdx(g.round) + 1}
 C06_result(t) == (t.result # NULL) <=> (t.ev = "GameClosed")
@@ -341,7 +346,7 @@ FailedStep(g, t, o, h, h2, props) ==
   (IF "C05" \in props THEN N("C05.notEarly", C05_notEarly(g, t, o, h2)) \cup N("C05.oneLeft", C05_oneLeft(g, t, o))
                            \cup N("C05.oneLeftEnds", C05_oneLeftEnds(g, t, o))
                            \cup N("C05.noRoundWhenAllin", C05_noRoundWhenAllin(g, t, o)) ELSE {}) \cup
-  (IF "C06" \in props THEN N("C06.start", C06_start(g, t, o)) \cup N("C06.succeeds", C06_succeeds(g, t, o))
+  (IF "C06" \in props THEN N("C06.start", C06_start(g, t, o)) \cup N("C06.succeeds", C06_succeeds(g, t, o, h))
                            \cup N("C06.streets", C06_streets(g, t, o))
                            \cup N("C06.closedIsFinal", C06_closedIsFinal(g, t, o)) ELSE {}) \cup
   (IF "C11" \in props THEN N("C11.effect", C11_effect(g, t, o)) ELSE {}) \cup
@@ -366,7 +371,7 @@ Exercised(g, t, o, h, h2) ==
   (IF ~Betting(g) /\ Betting(t) /\ t.round # "preflop" THEN {"C05.noRoundWhenAllin"} ELSE {}) \cup
   (IF g.ev = "RoundClosed" /\ t.ev = "RoundClosed" /\ o.ok /\ t.round # g.round THEN {"C05.runout"} ELSE {}) \cup
   (IF o.op = "Start" THEN {"C06.start"} ELSE {}) \cup
-  (IF Expected(g, o) THEN {"C06.succeeds"} ELSE {}) \cup
+  (IF Expected(g, o, h) THEN {"C06.succeeds"} ELSE {}) \cup
   (IF g.ev = "GameClosed" THEN {"C06.closedIsFinal"} ELSE {}) \cup
   (IF Acts(g, t, o) THEN {"C11.effect." \o o.op} ELSE {}) \cup
   (IF o.op = "Raise" /\ Betting(g) /\ CurOK(g) /\ o.seat = g.cur /\ Offered(g, "raise") /\ g.meta.limit = "no"
